@@ -1312,6 +1312,29 @@ def normalise_function(f, fr, free_new=frozenset(), free_ref=frozenset(), rep=No
     return tot_m, tot_k
 
 
+def similarity(f_new, f_ref):
+    """How much of the statement structure of f_new is that of f_ref: ratio of the aligned statement headers (local names
+    blanked, spelling-free shapes, see _header_shape) - 1.0 for the reference itself or a renamed / respelled copy, high for a
+    local edit, low for a function that was restructured."""
+    _o1, loc_new, _x1 = _scope_info(f_new, frozenset(a.arg for a in f_new.args.posonlyargs + f_new.args.args))
+    _o2, loc_ref, _x2 = _scope_info(f_ref, frozenset(a.arg for a in f_ref.args.posonlyargs + f_ref.args.args))
+    a = [_header_shape(st, loc_new)[0] for st in _headers(f_new)]
+    b = [_header_shape(st, loc_ref)[0] for st in _headers(f_ref)]
+    if not a and not b:
+        return 1.0
+    return difflib.SequenceMatcher(a=a, b=b, autojunk=False).ratio()
+
+
+def unmatched_statements(f_new, f_ref):
+    """(statements of f_new that align with none of f_ref, statements of f_ref that align with none of f_new)"""
+    _o1, loc_new, _x1 = _scope_info(f_new, frozenset(a.arg for a in f_new.args.posonlyargs + f_new.args.args))
+    _o2, loc_ref, _x2 = _scope_info(f_ref, frozenset(a.arg for a in f_ref.args.posonlyargs + f_ref.args.args))
+    a = [_header_shape(st, loc_new)[0] for st in _headers(f_new)]
+    b = [_header_shape(st, loc_ref)[0] for st in _headers(f_ref)]
+    m = sum(blk.size for blk in difflib.SequenceMatcher(a=a, b=b, autojunk=False).get_matching_blocks())
+    return len(a) - m, len(b) - m
+
+
 def reference_function(rel, qual):
     ref = reference_module(rel)
     if ref is None or os.environ.get("VERIF_NO_ALPHA") == "1":
